@@ -25,68 +25,113 @@ type expectLike struct {
 }
 
 func (m *Model) findExpectLikes(parFns []*ssa.Function) map[*ssa.Function]*expectLike {
+	if m.expectLikes != nil {
+		return m.expectLikes
+	}
 	out := map[*ssa.Function]*expectLike{}
+	m.expectLikes = out
 	newErr := m.Method("parser", "Parser", "newError")
+	nextTok := m.Method("parser", "Parser", "nextToken")
+	pm := m.extractPratt()
+	var toks []int64
+	for tv := range pm.tokName {
+		toks = append(toks, tv)
+	}
+	sort.Slice(toks, func(i, j int) bool { return toks[i] < toks[j] })
+	// A function is expect-like when, evaluated for every peek token (and every value of its token parameter, if it
+	// has one), it returns true exactly for a fixed set of tokens (plus "the parameter"), and every false result is
+	// preceded by a recorded error. Decided by case evaluation, so the function's shape and helpers do not matter.
 	for _, fn := range parFns {
 		if fn.Blocks == nil || fn.Signature.Results().Len() != 1 || !isBoolT(fn.Signature.Results().At(0).Type()) || fn.Signature.Recv() == nil {
 			continue
 		}
+		np := len(fn.Params)
+		if np > 2 || (np == 2 && !strings.HasSuffix(fn.Params[1].Type().String(), "token.TokenType")) {
+			continue
+		}
+		run := func(peek, par int64) (res, known, errRec bool) {
+			advanced := false
+			ip := m.parserInterp(-1, peek, pm.precLit, nil)
+			inner := ip.load
+			ip.load = func(v *ssa.UnOp, dirty bool) (any, bool) {
+				if advanced {
+					return nil, false
+				}
+				return inner(v, false)
+			}
+			ip.call = func(c *ssa.Call, args []any) (any, bool) {
+				switch c.Call.StaticCallee() {
+				case nil:
+					return nil, false
+				case newErr:
+					errRec = true
+					return nil, true
+				case nextTok:
+					advanced = true
+					return nil, true
+				}
+				return nil, false
+			}
+			args := make([]any, np)
+			if np == 2 {
+				args[1] = constant.MakeInt64(par)
+			}
+			r, ok := ip.Run(fn, args)
+			rc, isC := r.(constant.Value)
+			if !ok || !isC || rc.Kind() != constant.Bool {
+				return false, false, errRec
+			}
+			return constant.BoolVal(rc), true, errRec
+		}
 		el := &expectLike{fn: fn}
 		ok := true
 		nTrue, nFalse := 0, 0
-		for _, b := range fn.Blocks {
-			r, isRet := b.Instrs[len(b.Instrs)-1].(*ssa.Return)
-			if !isRet {
-				continue
+		pars := []int64{-1}
+		if np == 2 {
+			pars = toks
+		}
+		always := map[int64]bool{}
+		for _, t := range toks {
+			allTrue := true
+			for _, u := range pars {
+				res, known, errRec := run(t, u)
+				if !known {
+					ok = false
+					break
+				}
+				if res {
+					nTrue++
+				} else {
+					nFalse++
+					allTrue = false
+					if !errRec {
+						ok = false // a plain predicate: false without an error
+					}
+					if np == 2 && t == u {
+						ok = false // does not accept its own parameter
+					}
+				}
+				if res && np == 2 && t != u {
+					// true although the peek token is not the parameter: must be a constant member for every parameter value
+					always[t] = true
+				}
 			}
-			c, isC := r.Results[0].(*ssa.Const)
-			if !isC || c.Value == nil || c.Value.Kind() != constant.Bool {
-				ok = false
+			if !ok {
 				break
 			}
-			if constant.BoolVal(c.Value) {
-				nTrue++
-				// dominated by a true fact peekTokenIs(set)
-				found := false
-				for _, f := range expandFacts(factsAt(b)) {
-					call, isCall := f.Cond.(*ssa.Call)
-					if !isCall || !f.Holds || call.Call.StaticCallee() == nil || canonFnName(call.Call.StaticCallee()) != "peekTokenIs" {
-						continue
-					}
-					found = true
-					for _, e := range variadicElems(call.Call.Args[len(call.Call.Args)-1]) {
-						switch x := e.(type) {
-						case *ssa.Const:
-							el.consts = append(el.consts, x.Int64())
-						case *ssa.Parameter:
-							if len(fn.Params) > 1 && x == fn.Params[1] {
-								el.hasParam = true
-							} else {
-								ok = false
-							}
-						default:
-							ok = false
-						}
-					}
-				}
-				if !found {
-					ok = false
-				}
-			} else {
-				nFalse++
-				// must pass newError
-				passes := false
-				for d := b; d != nil; d = d.Idom() {
-					for _, in := range d.Instrs {
-						if call, isCall := in.(*ssa.Call); isCall && newErr != nil && call.Call.StaticCallee() == newErr {
-							passes = true
-						}
-					}
-				}
-				if !passes {
-					ok = false
+			if np == 1 && allTrue {
+				el.consts = append(el.consts, t)
+			}
+			if np == 2 {
+				if allTrue && len(pars) > 1 {
+					el.consts = append(el.consts, t)
+				} else if always[t] {
+					ok = false // accepted for some parameter values only: not of the form "set or parameter"
 				}
 			}
+		}
+		if np == 2 {
+			el.hasParam = true
 		}
 		if ok && nTrue > 0 && nFalse > 0 {
 			out[fn] = el
